@@ -52,7 +52,7 @@ CHECKS = {
  "C10": dict(engine="chan", cat="model_checking", ref="5 C10",
    technique="TLA+ model of the version handshake (Negotiate.tla) checked exhaustively on a scaled instance; decisions NegServer / NegClient evaluated by TLC at the real parameters and compared with the real ServeConn and CSession, followed by maximal-size traffic with every frame tapped",
    text="TLC checks for all offers 0..63 against a server maximum of 40 that the server never answers more than proposed or than its maximum, the client never adopts more than it proposed, both agree against an honest peer and nothing is dispatched before acceptance. At the real parameters TLC computes the expected answer / adopted msize for a boundary-dense list; the harness negotiates with the real server (every first-message kind, 4 version strings) and the real client, then checks exact-msize frames are accepted, msize+1 refused, read counts lowered, 1 MiB writes leave as exactly msize, and no tapped frame exceeds the agreed msize.",
-   note="Trusted: Negotiate.tla; frame tap on the in-memory connection. The man-in-the-middle variant (both real ends at small msize) is not built; small msizes are reached on each side separately."),
+   note="Trusted: Negotiate.tla; frame tap on the in-memory connection. Both real ends are also run against each other at msize 24..65535 by rewriting the client's Tversion on the wire."),
  "C05": dict(engine="client", cat="model_checking", ref="5 C05",
    technique="TLA+ implementation-shaped model of the client transport incl. a literal allocateTag over a tiny tag space (ClientImpl.tla) checked by TLC; TLC behaviours replayed as caller/peer schedules on the real CSession; recorded traces validated by TLC against ClientTrace.tla; true-width tag wrap scenario",
    text="TLC explores every interleaving of 3-4 calls, the handle loop, the reader and a peer answering in any order (tag space of 2-3 tags, so wrap-around, skipping of in-use tags and pool depletion are reached) and checks: a call is handed only the answer to its own request, tags awaiting a reply (incl. abandoned calls) are distinct and never NOTAG. On the real code the peer is scripted: all 24 reply orders of 4 concurrent callers, simulation schedules with abandoned calls, and >65535 sequential calls with 3 calls parked across the wrap; each call carries its id in the fid and each reply names the request it answers, so cross-delivery is visible; TLC validates every recorded trace.",
